@@ -53,11 +53,23 @@ theorem rankUnits_spec (cfg : Cfg) (hc : 1 ≤ cfg.chunk) : ∀ (st : RankState)
       · exact hsz x h
       · exact hsz2 x h
 
+theorem insertByPath_perm (x : WReq UnitId × Bytes) : ∀ l, (insertByPath x l).Perm (x :: l)
+  | [] => List.Perm.refl _
+  | y :: l => by
+    unfold insertByPath
+    split
+    · exact List.Perm.refl _
+    · exact ((insertByPath_perm x l).cons y).trans (List.Perm.swap x y l)
+
+theorem sortByPath_perm : ∀ l, (sortByPath l).Perm l
+  | [] => List.Perm.refl _
+  | x :: l => (insertByPath_perm x (sortByPath l)).trans ((sortByPath_perm l).cons x)
+
 /-- membership in what a rank keeps -/
 theorem mem_kept (j : Job) (r : Nat) (all : List (WReq UnitId × Bytes)) (x : WReq UnitId × Bytes) :
     x ∈ kept j r all ↔ x ∈ all ∧ (if j.rep x.1.path.1 then j.owner x.1.path = r else True) := by
   unfold kept repKept privKept
-  rw [List.mem_append, List.mem_mergeSort, List.mem_filter, List.mem_filter]
+  rw [List.mem_append, (sortByPath_perm _).mem_iff, List.mem_filter, List.mem_filter]
   by_cases hr : j.rep x.1.path.1 = true
   · simp [hr]
   · simp [hr]
@@ -68,7 +80,7 @@ theorem kept_nodup (j : Job) (r : Nat) (all : List (WReq UnitId × Bytes)) (hnd 
   rw [List.map_append, List.nodup_append]
   have hsub1 : ((repKept j r all).map (·.1.path)).Perm
       ((all.filter (fun x => j.rep x.1.path.1 && j.owner x.1.path == r)).map (·.1.path)) :=
-    (List.mergeSort_perm _ _).map _
+    (sortByPath_perm _).map _
   have hnf1 : ((all.filter (fun x => j.rep x.1.path.1 && j.owner x.1.path == r)).map (·.1.path)).Nodup :=
     hnd.sublist ((List.filter_sublist).map _)
   refine ⟨hsub1.nodup_iff.mpr hnf1, hnd.sublist ((List.filter_sublist).map _), ?_⟩
@@ -78,7 +90,7 @@ theorem kept_nodup (j : Job) (r : Nat) (all : List (WReq UnitId × Bytes)) (hnd 
   obtain ⟨y, hy, rfl⟩ := hb
   unfold repKept at hx
   unfold privKept at hy
-  rw [List.mem_mergeSort, List.mem_filter] at hx
+  rw [(sortByPath_perm _).mem_iff, List.mem_filter] at hx
   rw [List.mem_filter] at hy
   have h1 : j.rep x.1.path.1 = true := by
     have := hx.2; simp only [Bool.and_eq_true] at this; exact this.1
@@ -362,8 +374,8 @@ theorem kept_rep_perm (j : Job) (r : Nat) (all : List (WReq UnitId × Bytes)) :
     intro a _
     cases j.rep a.1.path.1 <;> simp
   rw [h2, List.append_nil]
-  have h1 := (List.mergeSort_perm (all.filter (fun x => j.rep x.1.path.1 && j.owner x.1.path == r))
-    (fun a b => decide (a.1.path.1 ≤ b.1.path.1))).filter (fun x => j.rep x.1.path.1)
+  have h1 := (sortByPath_perm (all.filter (fun x => j.rep x.1.path.1 && j.owner x.1.path == r))).filter
+    (fun x => j.rep x.1.path.1)
   refine h1.trans ?_
   rw [List.filter_filter, List.filter_filter]
   apply List.Perm.of_eq
